@@ -170,9 +170,21 @@ def task4_table(x):
 
 
 def task4_fork(digits, step_list, d4s=None):
+    """one sampled v4 product run.  The v4 part of C14 is a SAMPLE of (fork, step) cases; a case the
+    engine declines (a construct it does not support in pair mode, memory) is reported as a
+    declined sample, not as an inconclusive check - main() requires most samples to be conclusive"""
+    from pysymex.values import Unsupported
+
     from . import mono4
 
-    return mono4.task_fork(digits, step_list, d4s)
+    try:
+        return mono4.task_fork(digits, step_list, d4s)
+    except (Unsupported, MemoryError) as e:
+        return {"extra": {"v4_samples_declined": 1, "v4_samples_declined_why": ["%s %s: %s" % ("".join(str(d) for d in digits), step_list, str(e)[:160])]}}
+    except Exception as e:  # noqa: BLE001
+        if "out of memory" in repr(e):
+            return {"extra": {"v4_samples_declined": 1, "v4_samples_declined_why": ["%s %s: solver out of memory" % ("".join(str(d) for d in digits), step_list)]}}
+        raise
 
 
 def main():
@@ -195,6 +207,11 @@ def main():
     results = C.run_named_tasks("harness.mono", tasks4 + tasks)
     for r in results:
         chk.absorb_dict(r)
+    nsamp = sum(1 for name, _ in tasks4 if name == "task4_fork")
+    ndecl = int(chk.extra.get("v4_samples_declined", 0))
+    chk.extra["v4_samples"] = "%d drawn, %d conclusive, %d declined by the engine" % (nsamp, nsamp - ndecl, ndecl)
+    if nsamp and ndecl * 2 > nsamp:
+        chk.inconclusive.append("v4: %d of %d sampled product runs were declined by the engine" % (ndecl, nsamp))
     chk.input_model = ("M-ASSIGN in pair mode: per metric step (adjacent values in the standard's severity order) one run of the real constructor in which the stepped field is a pair leaf and all other metrics are solver variables; "
                        "v2: 20 steps (base, temporal); v3.0 / v3.1: 41 steps each (v3.0 environmental score exempt for impact and requirement metrics, as the property says); v4: see mono4")
     chk.bounds = ["v2: environmental metrics absent (only base and temporal scores are in the property)",
